@@ -116,16 +116,45 @@ class _NewStyle:
             hcipy.Configuration().core.use_new_style_fields = False
 
 
+LAYOUTS = ['C', 'F', 'P', 'strided', 'neg']
+
+
+def apply_layout(vals, layout):
+    """The same logical array in a chosen memory layout:
+    C = C-contiguous; F = Fortran-contiguous (what `per_point_vectors.T` is); P = the last axis stored
+    first and the others C-ordered behind it (`np.moveaxis(per_point_tensors, 0, -1)`; for tensor order
+    2 neither C- nor F-contiguous); strided = every other element of a wider buffer along the last axis;
+    neg = negative stride along the last axis."""
+    vals = np.ascontiguousarray(vals)
+    if layout == 'C' or vals.ndim == 0:
+        out = vals
+    elif layout == 'F':
+        out = np.asfortranarray(vals)
+    elif layout == 'P':
+        out = np.moveaxis(np.ascontiguousarray(np.moveaxis(vals, -1, 0)), 0, -1)
+    elif layout == 'strided':
+        big = np.zeros(vals.shape[:-1] + (2 * vals.shape[-1],), dtype=vals.dtype)
+        big[..., ::2] = vals
+        out = big[..., ::2]
+    elif layout == 'neg':
+        out = np.ascontiguousarray(vals[..., ::-1])[..., ::-1]
+    else:
+        raise MachineryError('layout ' + str(layout))
+    if out.shape != vals.shape or not np.array_equal(out, vals):
+        raise MachineryError('apply_layout changed the logical array')
+    return out
+
+
+def spec_layout(spec):
+    return spec.get('layout') or ('strided' if spec.get('noncontig') else 'C')
+
+
 def build_field(spec):
     import hcipy
     g = build_grid(spec['grid'])
     shape = tuple(spec['tshape']) + (grid_size(spec['grid']),)
     n = int(np.prod(shape))
-    vals = _values(spec['dtype'], spec['vals'][:n]).reshape(shape)
-    if spec.get('noncontig'):
-        big = np.zeros(shape[:-1] + (2 * shape[-1],), dtype=vals.dtype)
-        big[..., ::2] = vals
-        vals = big[..., ::2]
+    vals = apply_layout(_values(spec['dtype'], spec['vals'][:n]).reshape(shape), spec_layout(spec))
     with _NewStyle(spec.get('newstyle')):
         return hcipy.Field(vals, g)
 
@@ -138,6 +167,8 @@ def build_basis(spec):
     shape = tuple(spec['tshape']) + (n, spec['nmodes'])
     cnt = int(np.prod(shape))
     T = _values(spec['dtype'], spec['vals'][:cnt]).reshape(shape)
+    if spec['kind'] == 'dense':
+        T = apply_layout(T, spec_layout(spec))
     if spec['kind'] == 'sparse':
         T = scipy.sparse.csc_matrix(T)
         if spec.get('explicit_zero') and T.nnz:
@@ -221,7 +252,7 @@ def gen_field(rng, big=False):
     n = int(np.prod(ts + [grid_size(g)]))
     return {'what': 'field', 'grid': g, 'tshape': ts, 'dtype': dt,
             'vals': [int(x) for x in rng.integers(-12, 13, size=n)],
-            'noncontig': bool(rng.random() < 0.15), 'newstyle': bool(rng.random() < 0.1)}
+            'layout': str(rng.choice(LAYOUTS, p=[0.3, 0.27, 0.15, 0.14, 0.14])), 'newstyle': bool(rng.random() < 0.3)}
 
 
 def gen_basis(rng, big=False):
@@ -237,7 +268,8 @@ def gen_basis(rng, big=False):
     if kind == 'sparse':
         vals = vals * (rng.random(size=n) < 0.5)
     return {'what': 'basis', 'grid': g, 'npoints': npoints, 'kind': kind, 'tshape': ts, 'nmodes': nm, 'dtype': dt,
-            'vals': [int(x) for x in vals], 'explicit_zero': bool(kind == 'sparse' and rng.random() < 0.3)}
+            'vals': [int(x) for x in vals], 'explicit_zero': bool(kind == 'sparse' and rng.random() < 0.3),
+            'layout': 'C' if kind == 'sparse' else str(rng.choice(LAYOUTS, p=[0.3, 0.27, 0.15, 0.14, 0.14]))}
 
 
 def _g(kind, system='cartesian', **kw):
@@ -259,14 +291,14 @@ _SEQ = list(range(-12, 13)) * 8
 
 
 def _f(grid, ts, dt='float64', **kw):
-    d = {'what': 'field', 'grid': grid, 'tshape': ts, 'dtype': dt, 'vals': _SEQ, 'noncontig': False, 'newstyle': False}
+    d = {'what': 'field', 'grid': grid, 'tshape': ts, 'dtype': dt, 'vals': _SEQ, 'layout': 'C', 'newstyle': False}
     d.update(kw)
     return d
 
 
 def _b(grid, kind, ts=(), nm=3, dt='float64', **kw):
     d = {'what': 'basis', 'grid': grid, 'npoints': 5, 'kind': kind, 'tshape': list(ts), 'nmodes': nm, 'dtype': dt,
-         'vals': [v if v % 3 else 0 for v in _SEQ], 'explicit_zero': False}
+         'vals': [v if v % 3 else 0 for v in _SEQ], 'explicit_zero': False, 'layout': 'C'}
     d.update(kw)
     return d
 
@@ -284,13 +316,20 @@ DIRECTED = [
     _f(_UNS1, [2, 2]), _f(_UNS2, []), _f(_UNS2, [2]), _f(_UNS2, [2, 2]), _f(_UNS2, [3, 1]), _f(_UNS2, [1]), _f(_UNS3, [2, 2]),
     _f(_REG2, [2], 'complex128'), _f(_REG2, [], 'bool'), _f(_UNS2, [2], 'complex64'), _f(_UNS2, [], 'bool'),
     _f(_REG2, [], 'uint16'), _f(_REG2, [2], 'int8'), _f(_REG2, [], 'float16'),
-    _f(_REG2, [2], noncontig=True), _f(_REG2, [2], newstyle=True), _f(_UNS2, [2], newstyle=True),
+    _f(_REG2, [2], layout='strided'), _f(_REG2, [2], newstyle=True), _f(_UNS2, [2], newstyle=True),
+    # memory layouts (seeded class C16-2: Fortran-ordered tensor fields through pickle), both field styles
+    _f(_REG2, [2], layout='F'), _f(_REG2, [2], layout='F', newstyle=True), _f(_UNS2, [2, 2], layout='F'),
+    _f(_UNS2, [2, 2], layout='F', newstyle=True), _f(_SEPR, [2, 2], layout='P'), _f(_SEPR, [2, 2], layout='P', newstyle=True),
+    _f(_REG2, [3], 'complex128', layout='F'), _f(_REG2, [2], 'int16', layout='neg'), _f(_UNS2, [2], layout='neg', newstyle=True),
+    _f(_REG2, [2, 1, 2], 'float32', layout='F'), _f(_REG2, [], layout='neg'), _f(_REG2, [2], layout='strided', newstyle=True),
     # mode bases (D14: sparse + image path; D160: tensor basis + image path)
     _b(_REG2, 'dense'), _b(_REG2, 'sparse'), _b(_REG1, 'sparse', dt='float32'), _b(_REG3, 'sparse', dt='int64'),
     _b(_REG2, 'sparse', explicit_zero=True), _b(_REG2, 'dense', ts=[2]), _b(_REG1, 'dense', ts=[2, 2], dt='int32'),
     _b(_REG2, 'dense', nm=0), _b(_SEPR, 'dense'), _b(_SEPR, 'sparse'), _b(_UNS2, 'dense'), _b(_UNS2, 'sparse'),
     _b(_UNS2, 'dense', ts=[2]), _b(None, 'dense'), _b(None, 'sparse'), _b(_REG2, 'dense', dt='complex128'),
     _b(_REG2, 'sparse', dt='bool'),
+    _b(_REG2, 'dense', layout='F'), _b(_UNS2, 'dense', layout='F'), _b(_REG2, 'dense', ts=[2], layout='F'),
+    _b(_UNS2, 'dense', ts=[2], layout='P'), _b(_REG2, 'dense', layout='neg'), _b(_SEPR, 'dense', layout='strided'),
 ]
 
 
@@ -367,7 +406,7 @@ def first_difference(what, a, b):
 
 def _raw(a):
     a = np.asarray(a)
-    return (a.dtype.str, tuple(a.shape), a.tobytes())
+    return (a.dtype.str, tuple(a.shape), tuple(a.strides), a.tobytes())
 
 
 def snapshot(what, x):
@@ -501,6 +540,9 @@ def round_trips(spec, tmpdir):
             try:
                 with _NewStyle(spec.get('newstyle')):
                     y = fn(x)
+                if what == 'field' and route != 'deepcopy':
+                    obs['pickle_back'] = encode(y.to_dict())
+                    obs['pickle_flag'] = 'f' if np.isfortran(np.asarray(x)) else 'c'
                 if compare(y, route, 'pickle') and route != 'deepcopy' and shares_memory(what, x, y):
                     fails.append(('aliasing:%s:pickle' % what, '%s shares array memory with the original' % route))
             except Exception as e:  # noqa
@@ -607,8 +649,8 @@ def model_requests(spec, obs):
     reqs = []
     if 'dict_tree' in obs:
         reqs.append(('dict', 'C16 dict %s %s' % (what, obs['dict_tree']), 'ok ' + obs['dict_back']))
-        if what == 'field':
-            reqs.append(('pickle', 'C16 pickle field %s' % obs['dict_tree'], 'ok ' + obs['dict_back']))
+        if what == 'field' and 'pickle_back' in obs:
+            reqs.append(('pickle', 'C16 pickle field %s %s' % (obs['pickle_flag'], obs['dict_tree']), 'ok ' + obs['pickle_back']))
         if what in ('field', 'basis'):
             for fmt in ('fits', 'fits.gz'):
                 o = obs['fmt'][fmt]
@@ -635,8 +677,8 @@ def describe(spec):
     if what == 'grid':
         return (what,) + gd
     if what == 'field':
-        return (what, spec['dtype'], tuple(spec['tshape']), spec['noncontig'], spec['newstyle']) + gd
-    return (what, spec['kind'], spec['dtype'], tuple(spec['tshape']), spec['nmodes'], spec['explicit_zero']) + gd
+        return (what, spec['dtype'], tuple(spec['tshape']), spec_layout(spec), spec['newstyle']) + gd
+    return (what, spec['kind'], spec['dtype'], tuple(spec['tshape']), spec['nmodes'], spec['explicit_zero'], spec_layout(spec)) + gd
 
 
 def check_spec(ctx, spec, tmpdir, batch):
@@ -656,7 +698,11 @@ def check_spec(ctx, spec, tmpdir, batch):
             ctx.count('grid:reversed')
     else:
         ctx.count('grid:none')
+    if what == 'field' or (what == 'basis' and spec['kind'] == 'dense'):
+        ctx.count('%s-layout:%s' % (what, spec_layout(spec)))
     if what == 'field':
+        ctx.count('field-style:' + ('new' if spec['newstyle'] else 'old'))
+        ctx.count('field-pickle-fortran-flag:' + str(obs.get('pickle_flag')))
         ctx.count('field-dtype:' + spec['dtype'])
         ctx.count('field-tensor-order:%d' % len(spec['tshape']))
     if what == 'basis':
@@ -696,9 +742,9 @@ def run(ctx):
     ctx.rule = ('objects are rebuilt from JSON specs: grids (regular / separated incl. unequal axis lengths / unstructured; '
                 '1-3 D; Cartesian and polar; float64, float32 and int64 coordinates; weights absent, Python or NumPy scalar, '
                 'array, list, or automatic weights materialised before writing; reversed grids with negative-stride views), '
-                'fields (14 dtypes; tensor shapes (), (2,), (3,), (2,2), (2,1), (1,), (3,1), (2,1,2); non-contiguous values; '
-                'new-style fields) and mode bases (dense / CSC sparse with and without explicit zeros / dense tensor; 0-5 modes; '
-                '7 dtypes; with and without grid). Each object goes through to_dict/from_dict, pickle.dumps/loads, deepcopy and '
+                'fields (14 dtypes; tensor shapes (), (2,), (3,), (2,2), (2,1), (1,), (3,1), (2,1,2); memory layouts C-ordered, '
+                'Fortran-ordered, point-major, strided view, negative stride; old- and new-style fields) and mode bases (dense / CSC sparse with and without explicit zeros / dense tensor; 0-5 modes; '
+                '7 dtypes; dense matrices in the same five memory layouts; with and without grid). Each object goes through to_dict/from_dict, pickle.dumps/loads, deepcopy and '
                 'files asdf, fits, fits.gz, pkl; the object read back is compared structurally (class, system, each stored '
                 'coordinate array with dtype up to byte order, weights, values, tensor shape, sparse-or-dense) and with hcipy\'s '
                 '== on the grid; the written object is snapshotted (raw bytes, exact dtypes, _weights, attribute names) before '
